@@ -110,8 +110,8 @@ Proof. vm_compute. reflexivity. Qed.
 From Coq Require PrimFloat.
 From SP Require Import Model.FloatData2Coord Proofs.FloatData2CoordProofs.
 
-(* the cell coordinate lies in [0, 2^p - 1] for ALL floats: NaN, infinities, overflowing
-   intermediate results included *)
+(* the cell coordinate lies in [0, 2^p - 1] for ALL floats v, lo, hi and every p, with no exception
+   case: NaN, infinities, overflowing intermediate results and a range without extent included *)
 Theorem C08_f_data2coord_range : forall (v lo hi : PrimFloat.float) (p : nat),
     0 <= f_data2coord v lo hi (2 ^ Z.of_nat p) <= 2 ^ Z.of_nat p - 1.
 Proof. exact f_data2coord_range. Qed.
@@ -160,12 +160,13 @@ Theorem C08_f_cell :
 Proof. exact f_cell_of_centre. Qed.
 Print Assumptions C08_f_cell.
 
-(* PARTIAL (extra hypotheses: finite inputs, finite non-negative factor n / (hi - lo), no overflow
+(* PARTIAL (extra hypotheses: finite v, v', lo, hi, finite non-negative factor n / (hi - lo), no overflow
    of v - lo and of the product): a larger value never gets a smaller cell - subtraction,
    multiplication by a non-negative constant, the clips and the truncation are all monotone *)
 Theorem C08_f_data2coord_monotone_partial : forall v v' lo hi p, 1 <= p <= 31 ->
     let c := PrimFloat.div (Z2float (2 ^ p)) (PrimFloat.sub hi lo) in
     PrimFloat.is_finite v = true -> PrimFloat.is_finite v' = true -> PrimFloat.is_finite lo = true ->
+    PrimFloat.is_finite hi = true ->
     PrimFloat.is_finite c = true -> PrimFloat.leb PrimFloat.zero c = true ->
     PrimFloat.is_finite (PrimFloat.sub v lo) = true -> PrimFloat.is_finite (PrimFloat.sub v' lo) = true ->
     PrimFloat.is_finite (PrimFloat.mul (PrimFloat.sub v lo) c) = true ->
@@ -174,6 +175,26 @@ Theorem C08_f_data2coord_monotone_partial : forall v v' lo hi p, 1 <= p <= 31 ->
     f_data2coord v lo hi (2 ^ p) <= f_data2coord v' lo hi (2 ^ p).
 Proof. exact f_data2coord_monotone_partial. Qed.
 Print Assumptions C08_f_data2coord_monotone_partial.
+
+(* a range without extent (hi - lo == 0.0: where the zero-extent widening + 1.0 is absorbed,
+   |coordinate| >= 2^53): no exception; cell 0 iff not (v > hi) - so also for a NaN centre -,
+   otherwise the last cell *)
+Theorem C08_f_zero_width : forall v lo hi p, 1 <= p ->
+    PrimFloat.eqb (PrimFloat.sub hi lo) PrimFloat.zero = true ->
+    (f_data2coord v lo hi (2 ^ p) = 0 <-> PrimFloat.ltb hi v = false) /\
+    (f_data2coord v lo hi (2 ^ p) = 2 ^ p - 1 <-> PrimFloat.ltb hi v = true).
+Proof. exact f_zero_width_cells. Qed.
+Print Assumptions C08_f_zero_width.
+
+(* ... and the range is without extent exactly when lo and hi are the same finite number: for
+   finite lo, hi,  hi - lo == 0.0  iff  hi == lo  (with gradual underflow the difference of two
+   different floats never rounds to zero) - i.e. after the two widenings, exactly when + 1.0 was
+   absorbed *)
+Theorem C08_f_zero_width_when : forall lo hi,
+    PrimFloat.is_finite lo = true -> PrimFloat.is_finite hi = true ->
+    PrimFloat.eqb (PrimFloat.sub hi lo) PrimFloat.zero = PrimFloat.eqb hi lo.
+Proof. exact zero_width_eqb. Qed.
+Print Assumptions C08_f_zero_width_when.
 
 Module C08FloatExamples.
 Import Coq.Floats.PrimFloat.
@@ -191,9 +212,12 @@ Example C08_f_ex2 :
     (0, 0, 0x1.6666666666666p-1, 0x1.6666666666666p-1)%float None 3
   = FReturned [11%N].
 Proof. vm_compute. reflexivity. Qed.
-(* a zero extent at 2^53: + 1.0 is absorbed and the call raises *)
+(* a zero extent at 2^53: + 1.0 is absorbed, the range has no extent: rows at or below the value
+   (and the missing row) in cell 0 of that axis, the row beyond it in the last cell *)
 Example C08_f_ex3 :
-  f_hilbert_distance [(0x1p53, 1, 0x1p53, 1)]%float (0x1p53, 1, 0x1p53, 1)%float None 3
-  = FRaised "ZeroDivisionError".
+  f_hilbert_distance [(0x1p53, 1, 0x1p53, 1); (0x1p52, 1, 0x1p52, 1); (nan, nan, nan, nan);
+                      (0x1p54, 1, 0x1p54, 1)]%float (0x1p53, 1, 0x1p54, 1)%float
+                     (Some [FPyFloat 0x1p53; FPyFloat 1; FPyFloat 0x1p53; FPyFloat 1]%float) 3
+  = FReturned [0%N; 0%N; 0%N; 63%N].
 Proof. vm_compute. reflexivity. Qed.
 End C08FloatExamples.
